@@ -33,6 +33,12 @@ Shape `ign_then_mark`: leading `#[x(ignore)]` variant, attribute-less variants, 
 (`#[try_into(ref)]`, `#[unwrap(ref)]`, `#[try_unwrap(ref_mut)]`, bare `#[is_variant]`), no enum-level attribute: the attribute-less
 variants are non-ignored, so their owned accessors exist / they stay in the owned TryFrom group.  Only owned forms are called there.
 
+Shapes `ti_varsel` / `ti_varsel2` (TryInto, no enum-level attribute, same-typed variants naming different kinds at the variant level):
+a variant takes part in the `ref` / `ref_mut` impls of its field-type tuple iff it names that kind -- every (variant, ref) and
+(variant, ref_mut) pair is an obligation (Ok with ptr::eq fields / Err with the original).  By value: Ok for the variants that name
+`owned`; a same-typed variant that names only reference kinds is left UNCONSTRAINED (not settled by the statement, and the macro's
+answer depends on which variant is attributed first: utils.rs `owned:` default); every other variant is Err with the original.
+
 "does not return" (kind="no_return" harnesses, see AUTHORING.md): `#[kani::proof] #[kani::should_panic]`, the input is
 restricted (kani::assume) to the wrong variants, the accessor is called and the next statement is
 `kani::cover!(true, "RETURNED")`, the only cover of the harness.  The core discharges the obligation iff Kani reports
@@ -814,6 +820,8 @@ def family(tier, seed):
             "variant-level #[unwrap(ref)]/#[try_unwrap(ref)] selections are NOT in the family (see report: they do not generate the documented accessor); "
             "shape ign_then_mark carries such an attribute only as a marker and calls the owned forms only. Enums whose FIRST attributed variant "
             "is an enabling one (allow-list mode: attribute-less variants are then dropped by the macro) are not in the family",
+            "variant-level TryInto kinds (ti_varsel*): 'the variants whose field types equal the target tuple' is read per kind as 'the "
+            "non-ignored variants that take part in that kind'; (variant naming only ref kinds, owned) pairs are unconstrained",
         ],
         rule="one program per (enum shape x derive x owned/ref/ref_mut selection); per program one harness per accessor kind quantifying over "
              "every value of the enum and every non-ignored variant's accessor, one should_panic harness per (variant, unwrap form) for the "
